@@ -749,6 +749,13 @@ bufferevent_rate_limit_group_set_min_share(
 	if (share > g->rate_limit_cfg.write_rate)
 		share = g->rate_limit_cfg.write_rate;
 
+	/* A quantum of zero bytes is no quantum: the group would be
+	 * unsuspended with an empty bucket, and a member handed an allowance
+	 * of 0 does a zero-length read or write whose result is taken for an
+	 * EOF or an error. */
+	if (share < 1)
+		share = 1;
+
 	g->min_share = share;
 	return 0;
 }
